@@ -14,7 +14,9 @@
 (***************************************************************************)
 EXTENDS Naturals, Sequences, FiniteSets, TLC
 
-CONSTANTS NTasks, N, MaxOps, MaxRec, MaxT, MTypes, Bug
+CONSTANTS NTasks, N, MaxOps, MaxRec, MaxT, MTypes,
+          Kinds,   \* scope kinds the environment opens: subset of {"s", "a"} (sync / async)
+          Bug
 (* MTypes \subseteq {"Cat", "Last", "Sum", "Boom"} *)
 
 Tasks == 1..NTasks
@@ -199,7 +201,7 @@ Drain ==
   /\ UNCHANGED <<par, kids, phase, kind, done, born, doneAt, cbq, cblog, vals, cur, tg, stack, saved, grp, alive,
                  now, nrec, nops>>
 
-Controlled == \/ \E t \in Tasks : (\E k \in {"s", "a"} : Open(t, k)) \/ Close(t) \/ End(t)
+Controlled == \/ \E t \in Tasks : (\E k \in Kinds : Open(t, k)) \/ Close(t) \/ End(t)
                                   \/ (\E u \in Tasks, how \in {"spawn", "plain"} : Start(t, u, how))
                                   \/ (\E m \in MTypes : Record(t, m))
               \/ Tick \/ Drain
